@@ -360,11 +360,36 @@ class JSObject:
         self._setters.pop(key, None)
         if self._order is not None:
             self._order.pop(key, None)
+        self.unhide(key)  # a property created again later is an ordinary one
         return True
 
     def keys(self) -> List[str]:
         """Get own enumerable property keys, data and accessor, in creation order."""
-        return list(self._properties if self._order is None else self._order)
+        names = list(self._properties if self._order is None else self._order)
+        hidden = getattr(self, "_hidden", None)
+        if hidden:
+            names = [name for name in names if name not in hidden]
+        return names
+
+    def hide(self, *keys: str) -> None:
+        """Make own properties non-enumerable (they stay readable and writable)."""
+        hidden = getattr(self, "_hidden", None)
+        if hidden is None:
+            hidden = self._hidden = set()
+        hidden.update(keys)
+
+    def hide_all(self) -> None:
+        """Make every own property defined so far non-enumerable (built-in objects)."""
+        self.hide(*self._properties, *self._getters, *self._setters)
+
+    def unhide(self, key: str) -> None:
+        hidden = getattr(self, "_hidden", None)
+        if hidden:
+            hidden.discard(key)
+
+    def is_enumerable(self, key: str) -> bool:
+        hidden = getattr(self, "_hidden", None)
+        return not (hidden and key in hidden)
 
     def __repr__(self) -> str:
         return f"JSObject({self._properties})"
@@ -472,6 +497,7 @@ class JSRegExp(JSObject):
         self.set("unicode", "u" in flags)
         self.set("sticky", "y" in flags)
         self.set("lastIndex", 0)
+        self.hide_all()  # none of a RegExp's own properties is enumerable
 
     @property
     def lastIndex(self) -> int:
